@@ -16,6 +16,9 @@ func C16Req(t *rapid.T, label string, concurrent bool) *world.Req {
 		// now and then under a key the caller wrote into the map itself ("!": not canonical)
 		rq.Header = append(rq.Header, H("X-A", Pick(t, label+"-xav", "1", "2")))
 	}
+	if Pct(t, label+"-xb", 25) {
+		rq.Header = append(rq.Header, H("X-B", Pick(t, label+"-xbv", "1", "2")))
+	}
 	if rq.Method == "GET" && Pct(t, label+"-rcc", 15) {
 		rq.Header = append(rq.Header, H("Cache-Control", Pick(t, label+"-rccv", "no-cache", "max-age=0", "max-stale", "only-if-cached", `stale-if-error="30"`, `max-stale="5", stale-if-error="60"`, `min-fresh="0"`)))
 	}
@@ -33,7 +36,8 @@ func C16Req(t *rapid.T, label string, concurrent bool) *world.Req {
 	// construction of the conditional request)
 	rp.Header = append(rp.Header, validators(t, label+"-val")...)
 	if Pct(t, label+"-vary", 50) {
-		rp.Header = append(rp.Header, H("Vary", "X-A"))
+		// one nominated field or several (stores of multi-field variants run concurrently too)
+		rp.Header = append(rp.Header, H("Vary", Pick(t, label+"-varyv", "X-A", "X-A", "X-A, X-B", "X-B, X-A", "Accept-Language, X-A, X-B")))
 	}
 	if rq.Method != "GET" {
 		rp.Header = [][2]string{H("Date", "$T+0")}
